@@ -1,7 +1,7 @@
 (* C10 — nearest-centre assignment and per-trajectory bookkeeping are exact.
    gen_partition_indices / gen_partition_list are regenerated from enspara/ra/ra.py on every run. *)
 From Coq Require Import List ZArith QArith.
-From EV Require Import PySlice PartitionBase PartitionGen Cluster ClusterBase Partition PartitionProofs KcGuardBase ClusterGen ClusterSkel ClusterGenProofs.
+From EV Require Import PySlice PartitionBase PartitionGen Cluster ClusterBase Partition PartitionProofs KcGuardBase ClusterGen ClusterSkel ClusterGenProofs PartitionSkel UtilGenProofs.
 Import ListNotations.
 
 (* every frame gets a centre at minimal distance and exactly that distance; ties go to the first
@@ -75,6 +75,22 @@ Theorem c10_batches_keep_trajectory_order : forall lens bs,
   concat (compute_batches lens bs) = seq 0 (length lens).
 Proof. exact compute_batches_order. Qed.
 Print Assumptions c10_batches_keep_trajectory_order.
+
+(* the per-label member test / running first minimum of find_cluster_centers, the join-or-open test
+   of compute_batches and the all-equal test of ClusterResult.partition as regenerated from util.py *)
+Theorem c10_source_center_finder_is_model : forall c l best,
+  argmin_label_skel gen_fcc_member gen_fcc_better c best l = argmin_label c best l.
+Proof. exact gen_center_finder_is_model. Qed.
+Print Assumptions c10_source_center_finder_is_model.
+
+Theorem c10_source_batches_is_model : forall bs lens i cur_sz cur done,
+  cb_loop_skel gen_cb_fits bs lens i cur_sz cur done = cb_loop bs lens i cur_sz cur done.
+Proof. exact gen_batches_is_model. Qed.
+Print Assumptions c10_source_batches_is_model.
+
+Theorem c10_source_square_test_is_model : forall lens, gen_square lens = square lens.
+Proof. exact gen_square_is_model. Qed.
+Print Assumptions c10_source_square_test_is_model.
 
 Example c10_example :
   gen_partition_indices [0; 2; 3; 3; 9; 4]%Z [3; 1; 4; 2]%Z = [(0, 0); (0, 2); (1, 0); (1, 0); (3, 1); (2, 0)]%Z /\
